@@ -298,6 +298,18 @@ def r5_8(ctx, rc):
                        'CreatedFiles.error_building_file')
 
 
+def r5_9(ctx, rc):
+    """What the next build is told about this one is complete and in the
+    order things finished: every observation is recorded on every exit, in
+    completion order (R1.2), and every directory the build created has an
+    owner (R9.6) - otherwise an unchanged rebuild answers differently and
+    re-executes."""
+    from .c01 import r1_2
+    from .c09 import r9_6
+    r1_2(ctx, rc)
+    r9_6(ctx, rc)
+
+
 RULES = [
     ('R5.1', 'listings are sorted before they are recorded', r5_1),
     ('R5.2', 'failures are not served at top level; nested ones reusable',
@@ -309,4 +321,6 @@ RULES = [
     ('R5.7', 'recorded arguments are not aliased with the callee', r5_7),
     ('R5.8', 'overlay: forgetting a failed output inverts registering it',
      r5_8),
+    ('R5.9', 'records are complete and in completion order; dirs owned',
+     r5_9),
 ]
